@@ -83,7 +83,14 @@ pub fn ctpk(texs: &[Tex], rng: &mut Rng, shuffle: bool) -> Built {
     if shuffle {
         rng.shuffle(&mut dorder);
     }
-    for &i in &dorder {
+    for (k, &i) in dorder.iter().enumerate() {
+        // identical payload bytes may be stored once and referenced by several textures
+        if shuffle {
+            if let Some(&j) = dorder[..k].iter().find(|&&j| texs[j].payload == texs[i].payload) {
+                data_off[i] = data_off[j];
+                continue;
+            }
+        }
         if shuffle && rng.chance(1, 3) {
             data.extend(std::iter::repeat(0xAA).take(rng.range(1, 16)));
         }
@@ -177,7 +184,13 @@ pub fn bch(texs: &[Tex], rng: &mut Rng, shuffle: bool, new_header: bool) -> Buil
     if shuffle {
         rng.shuffle(&mut dorder);
     }
-    for &i in &dorder {
+    for (k, &i) in dorder.iter().enumerate() {
+        if shuffle {
+            if let Some(&j) = dorder[..k].iter().find(|&&j| texs[j].payload == texs[i].payload) {
+                data_off[i] = data_off[j];
+                continue;
+            }
+        }
         if shuffle && rng.chance(1, 3) {
             raw.extend(std::iter::repeat(0x33).take(rng.range(1, 16)));
         }
@@ -299,8 +312,15 @@ pub fn cgfx(texs: &[Tex], rng: &mut Rng, shuffle: bool) -> Built {
                 img.push(0);
             }
             Item::Data(i) => {
-                dat_at[i] = img.len();
-                img.extend(&texs[i].payload);
+                // identical payload bytes may be stored once (only among payloads already placed)
+                let prev = if shuffle { (0..n).find(|&j| j != i && dat_at[j] != 0 && texs[j].payload == texs[i].payload) } else { None };
+                match prev {
+                    Some(j) => dat_at[i] = dat_at[j],
+                    None => {
+                        dat_at[i] = img.len();
+                        img.extend(&texs[i].payload);
+                    }
+                }
             }
         }
     }
